@@ -19,7 +19,7 @@ StateFn: TypeAlias = Callable[[], Optional["StateFn"]]
 RE_ASSIGN_OP = re.compile(r"=")  # TODO: scan until ch?
 RE_GRAMMAR_DOC = re.compile(r"//!")
 RE_IDENTIFIER = re.compile(r"(?!PUSH)[_a-zA-Z][_a-zA-Z0-9]*")
-RE_INTEGER = re.compile(r"-?[0-9]+")
+RE_INTEGER = re.compile(r"[0-9]+|-0*[1-9][0-9]*")
 RE_MODIFIER = re.compile(r"[_@\$!]")
 RE_NEWLINE = re.compile(r"\r?\n")
 RE_NUMBER = re.compile(r"[0-9]+")
